@@ -152,6 +152,7 @@ class REDItoolsRecord():
             except ValueError as e:
                 if e.args[0] == ERROR_INDEX_IN_INTRON:
                     continue
+                raise
             gene_id = tx_model.transcript.gene_id
             gene_model = anno.genes[gene_id]
             strand = gene_model.strand
